@@ -7,6 +7,7 @@ func init() {
 		NotCovered:  "row equality between the multi-symbol and the single-symbol query, duplicate/unknown column semantics.",
 		Rules: []Rule{
 			{"R13.1", "datasets are merged only when names and types agree", ruleAppendComparesTypes},
+			{"R13.3", "every listed symbol of a query is visited", ruleRestrictionListFullyVisited},
 			// R13.2 (wrong error variable tested in executeQuery) was removed: the flagged branch is
 			// unreachable for every bucket the server can hold, so no failing input exists — by the
 			// task's definition a false alarm, not a finding (DESIGN.md §7).
@@ -94,6 +95,7 @@ func init() {
 			{"R23.1", "column conversion is total over the numeric column types", ruleAggregateInputTotal},
 			{"R23.2", "aggregate registry is total and stateless", ruleAggRegistry},
 			{"R23.3", "empty input is handled before indexing", ruleEmptyInputHandled},
+			{"R23.4", "extremum accumulators are seeded from the input or the correct bound", ruleExtremumSeed},
 		},
 	})
 	register(&Property{
@@ -102,6 +104,7 @@ func init() {
 		NotCovered:  "cache validity for writes spanning an earlier window; OHLCV arithmetic.",
 		Rules: []Rule{
 			{"R24.1", "fresh records win over cached ones; aggregate write errors", ruleFreshWinsOverCache},
+			{"R24.2", "destination windows are aggregated from the whole window's base data", ruleAggregateFromWholeWindow},
 		},
 	})
 	register(&Property{
@@ -112,6 +115,7 @@ func init() {
 			{"R25.1", "each write set is replayed with its own record type", ruleReplicaRecordType},
 			{"R10.1", "ticks decode keeps the seconds (R10.3) and codec agreement", ruleTicksScaleAgreement},
 			{"R25.3", "replicate exactly what was logged, after it is durable; replica decode = WAL decode", ruleReplicateWhatWasLogged},
+			{"R25.5", "each write set is placed with the year of its own file path", ruleReplicaYearFromOwnPath},
 		},
 	})
 	register(&Property{
@@ -139,6 +143,7 @@ func init() {
 		Rules: []Rule{
 			{"R28.1", "serializer and parser agree on field order and widths; buffer accessors", ruleWALRecordLayoutAgreement},
 			{"R28.2", "no length is narrowed without a bound", ruleNoLossyNarrowing},
+			{"R28.5", "the schema encoding does not shorten names", ruleSchemaEncodingLossless},
 			// R28.3 (DSVToBytes error swallowed in serializeTG) removed: DSVToBytes cannot fail for
 			// the operand types it is given, so no failing input exists (DESIGN.md §7).
 		},
